@@ -585,6 +585,10 @@ def run(repo: Repo, rep: Report, tier: str) -> None:
                   "no early `return False` for an IRConst producer: a constant marked as a coordinate gets a combinator as soon as something else reads it, and readers that "
                   "need a literal (an inlined entity condition) lose it", hlc.loc())
 
+    # ---------------- R19 --------------------------------------------------------------
+    from .shared import zero_is_a_value as _zero_v
+    _zero_v(repo, rep, "C10-R19")
+
 
 
 def thorough(repo: Repo, rep: Report) -> None:
